@@ -59,7 +59,7 @@ static int ob_params(obs_t *s, tok_t *t) {     /* t[0..2] = chunk pre stats */
   for (int i = 0; i < 3; i++) NEED(t[i].kind == T_NUM && !t[i].neg && t[i].n <= 1);
   s->chunk = tok_ulong(&t[0]); s->pre = tok_ulong(&t[1]); unsigned long st = tok_ulong(&t[2]);
   NEED(s->chunk == 0 || (s->chunk >= 48 && s->chunk <= 1 << 16));
-  NEED(s->chunk == 0 ? s->pre <= 2048 : s->pre + 32 <= s->chunk);      /* the earlier object fits the first chunk */
+  NEED(s->chunk == 0 ? s->pre <= 2048 : s->pre + 16 <= s->chunk);      /* the earlier object fits the first chunk (16 = chunk header) */
   NEED(st <= 1 && !(st && s->chunk == 0));
   s->stats = (int)st; return 0;
 }
